@@ -507,6 +507,9 @@ class Part(object):
             ),
         ]
 
+        # measure from the first time point (quarter durations may be set before it)
+        y -= y[np.searchsorted(x, self.first_point.t)]
+
         m1 = next(self.first_point.iter_starting(Measure), None)
 
         if m1 and m1.start is not None and m1.end is not None:
